@@ -5,6 +5,7 @@ import (
 	"go/constant"
 	"go/token"
 	"go/types"
+	"sort"
 	"strings"
 
 	"golang.org/x/tools/go/ssa"
@@ -30,6 +31,8 @@ func init() {
 			}
 			if id == "C11" {
 				resetCoverageRule(p, r)
+				loopOwnedFieldsRule(p, r)
+				pooledHelperRule(p, r)
 			}
 			if id == "C11" || id == "C17" {
 				r.Floor("R-ctx", "handler-settable ctx fields read by the serve loop", p.serveLoop(id).counts["R-ctx handler-settable ctx fields read by the serve loop"], 3)
@@ -224,6 +227,8 @@ func resetExemptReason(typ, fp string) string {
 		return "server pointer: documented as deliberately kept (one pool per server; context.Done/Err of a late handler read only ctx.s)"
 	case typ == "RequestCtx" && (fp == "timeoutCh" || fp == "timeoutTimer"):
 		return "reused synchronisation objects (semaphore channel, stopped timer): carry no request data"
+	case fp == "bodyStreamUnread" || strings.HasSuffix(fp, "Request.bodyStreamUnread"):
+		return "owned by the serve loop: it has to survive a Reset the handler performs (that is its purpose: remembering that an unread connection-backed stream was dropped); the loop stores false before every handler dispatch (checked by C11.R-loop-owned) and reads it afterwards"
 	case typ == "RequestCtx" && fp == "formValueFunc":
 		return "configuration copied from Server.FormValueFunc when the ctx is acquired"
 	}
@@ -938,4 +943,255 @@ func doneChannelRule(p *Prog, r *Report) {
 	}
 	r.Floor("R6", "close(Server.done) sites", nclose, 1)
 	r.Floor("R6", "sites that drop Server.done", ndrop, 1)
+}
+
+// loopOwnedFieldsRule (C11.R-loop-owned): a per-request field that is exempt from the reset coverage because the
+// serve loop owns it is assigned by the loop on every path from the start of an iteration to the handler dispatch.
+func loopOwnedFieldsRule(p *Prog, r *Report) {
+	fn, hcall, header, why := findServeLoop(p)
+	if fn == nil {
+		r.Undecided("R-loop-owned", "serve loop", why)
+		return
+	}
+	n := 0
+	for _, name := range []string{"bodyStreamUnread"} {
+		stores := func(i ssa.Instruction) bool {
+			st, ok := i.(*ssa.Store)
+			if !ok {
+				return false
+			}
+			_, fv := fieldOfAddr(st.Addr)
+			return fv != nil && fv.Name() == name
+		}
+		var first ssa.Instruction
+		for _, in := range header.Instrs {
+			if _, isPhi := in.(*ssa.Phi); !isPhi {
+				first = in
+				break
+			}
+		}
+		if first == nil {
+			r.Undecided("R-loop-owned", name, "loop header has no instruction")
+			continue
+		}
+		n++
+		hit, path := reachAvoiding(fn, first, func(i ssa.Instruction) bool { return i == ssa.Instruction(hcall) }, stores, nil)
+		r.Check("R-loop-owned", "the serve loop assigns Request."+name+" on every path of an iteration before the handler is dispatched", hit == nil, p.Pos(hcall.Pos()),
+			"the field is exempt from Reset because the loop owns it, but a path reaches the handler without the loop having assigned it: a value left by an earlier request decides how this one is treated", blocksString(p, path)...)
+	}
+	r.Floor("R-loop-owned", "loop-owned request fields", n, 1)
+}
+
+// pooledHelperRule (C11.R-pool): small per-request helper objects (body streams, client connections, pipeline
+// work items, hijack wrappers ...) are recycled through acquireX / releaseX pairs. Every field of such an object
+// is assigned on every path of its release function or on every path of its acquire function - otherwise the
+// next request that is handed the object starts with what the previous one left in it (a half-read chunk
+// counter, a deadline, a connection). Fields whose type carries no request data (locks, reusable channels and
+// timers) are exempt by type; anything else needs a reason in the table below.
+func pooledHelperRule(p *Prog, r *Report) {
+	exempt := map[string]string{
+		"pipelineWork.respCopy": "embedded Response: covered by Response.Reset (E7), which release calls",
+		"pipelineWork.reqCopy":  "embedded Request: covered by Request.Reset (E7), which release calls",
+		"pipelineWork.done":     "reusable signalling channel; drained by its single receiver before the item is released",
+		"pipelineWork.t":        "reusable timer: stopped on release, re-armed on acquire when a deadline is set",
+		"hijackConn.s":          "the pool is a field of the Server this field points to: every object of the pool has the same value",
+	}
+	byType := map[string][2]*ssa.Function{} // type name -> {acquire, release}
+	for _, fn := range p.funcsIn("") {
+		n := fn.Name()
+		isAcq, isRel := strings.HasPrefix(n, "acquire"), strings.HasPrefix(n, "release")
+		if !isAcq && !isRel {
+			continue
+		}
+		var t types.Type
+		if isRel {
+			for _, prm := range fn.Params {
+				if pt, ok := prm.Type().Underlying().(*types.Pointer); ok {
+					if _, isSt := pt.Elem().Underlying().(*types.Struct); isSt && strings.Contains(pt.Elem().String(), rootPkg) && strings.EqualFold(shortType(pt.Elem().String()), strings.TrimPrefix(n, "release")) {
+						t = pt.Elem()
+					}
+				}
+			}
+		} else if res := fn.Signature.Results(); res.Len() >= 1 {
+			if pt, ok := res.At(0).Type().Underlying().(*types.Pointer); ok {
+				if _, isSt := pt.Elem().Underlying().(*types.Struct); isSt && strings.Contains(pt.Elem().String(), rootPkg) && strings.EqualFold(shortType(pt.Elem().String()), strings.TrimPrefix(n, "acquire")) {
+					t = pt.Elem()
+				}
+			}
+		}
+		if t == nil {
+			continue
+		}
+		k := shortType(t.String())
+		e := byType[k]
+		if isAcq {
+			e[0] = fn
+		} else {
+			e[1] = fn
+		}
+		byType[k] = e
+	}
+	var names []string
+	for k := range byType {
+		names = append(names, k)
+	}
+	sort.Strings(names)
+	npairs := 0
+	for _, k := range names {
+		acq, rel := byType[k][0], byType[k][1]
+		if acq == nil || rel == nil {
+			continue
+		}
+		npairs++
+		// release: must-written fields of the object parameter
+		written := map[string]bool{}
+		var obj types.Type
+		for i, prm := range rel.Params {
+			if pt, ok := prm.Type().Underlying().(*types.Pointer); ok && shortType(pt.Elem().String()) == k {
+				obj = pt.Elem()
+				for f := range fieldsWritten(p, rel, i, 3) {
+					written[f] = true
+				}
+			}
+		}
+		// only objects that really go back to a pool are recycled (a release that merely drops a reference count is not)
+		puts := false
+		allCalls(rel, func(b *ssa.BasicBlock, c ssa.CallInstruction) {
+			if f := c.Common().StaticCallee(); f != nil && f.Name() == "Put" && recvTypeName(f) == "Pool" {
+				puts = true
+			}
+		})
+		if !puts {
+			npairs--
+			continue
+		}
+		// acquire: fields stored (through any object of the type) on every path to a return; a freshly
+		// allocated object counts as fully written on its path
+		for f := range mustStoredFields(acq, k) {
+			written[f] = true
+		}
+		if obj == nil {
+			continue
+		}
+		st := obj.Underlying().(*types.Struct)
+		for i := 0; i < st.NumFields(); i++ {
+			f := st.Field(i)
+			ts := f.Type().String()
+			if strings.HasPrefix(ts, "sync.") || ts == "github.com/valyala/fasthttp.noCopy" {
+				continue
+			}
+			key := k + "." + f.Name()
+			if why := exempt[key]; why != "" {
+				r.Note("R-pool exempt %s: %s", key, why)
+				continue
+			}
+			r.Check("R-pool", fmt.Sprintf("%s is assigned on every path of %s or of %s", key, funcName(rel), funcName(acq)), coveredBy(written, f.Name()), p.Pos(rel.Pos()),
+				"a recycled "+k+" hands this field's previous content to its next user")
+		}
+	}
+	r.Floor("R-pool", "acquire/release pairs of pooled helper objects", npairs, 4)
+}
+
+// mustStoredFields: names of the fields of struct type typ (by short name) that fn assigns on every path from
+// its entry to a return; allocating a fresh object of the type counts as assigning all of its fields ("*").
+func mustStoredFields(fn *ssa.Function, typ string) map[string]bool {
+	n := len(fn.Blocks)
+	out := make([]map[string]bool, n)
+	gen := func(b *ssa.BasicBlock, in map[string]bool) map[string]bool {
+		res := map[string]bool{}
+		for k := range in {
+			res[k] = true
+		}
+		for _, i := range b.Instrs {
+			switch w := i.(type) {
+			case *ssa.Alloc:
+				if shortType(strings.TrimPrefix(w.Type().String(), "*")) == typ {
+					res["*"] = true
+				}
+			case *ssa.Store:
+				if base, fv := fieldOfAddr(w.Addr); fv != nil && shortType(strings.TrimPrefix(base.Type().String(), "*")) == typ {
+					res[fv.Name()] = true
+				}
+			}
+		}
+		return res
+	}
+	work := []*ssa.BasicBlock{fn.Blocks[0]}
+	for len(work) > 0 {
+		b := work[0]
+		work = work[1:]
+		var in map[string]bool
+		if b.Index == 0 {
+			in = map[string]bool{}
+		} else {
+			first := true
+			for _, pr := range b.Preds {
+				if out[pr.Index] == nil {
+					continue
+				}
+				if first {
+					in = map[string]bool{}
+					for k := range out[pr.Index] {
+						in[k] = true
+					}
+					first = false
+				} else {
+					for k := range in {
+						if !out[pr.Index][k] && !out[pr.Index]["*"] {
+							if !in["*"] {
+								delete(in, k)
+							}
+						}
+					}
+					if in["*"] && !out[pr.Index]["*"] {
+						// the fresh-object path meets a recycled-object path: keep what the recycled path stored
+						nin := map[string]bool{}
+						for k := range out[pr.Index] {
+							nin[k] = true
+						}
+						in = nin
+					}
+				}
+			}
+			if first {
+				continue
+			}
+		}
+		o := gen(b, in)
+		same := out[b.Index] != nil && len(out[b.Index]) == len(o)
+		if same {
+			for k := range o {
+				if !out[b.Index][k] {
+					same = false
+				}
+			}
+		}
+		if !same {
+			out[b.Index] = o
+			work = append(work, b.Succs...)
+		}
+	}
+	res := map[string]bool{}
+	first := true
+	for _, b := range fn.Blocks {
+		if _, ok := b.Instrs[len(b.Instrs)-1].(*ssa.Return); !ok || out[b.Index] == nil {
+			continue
+		}
+		if out[b.Index]["*"] {
+			continue // a fresh object: nothing left over
+		}
+		if first {
+			for k := range out[b.Index] {
+				res[k] = true
+			}
+			first = false
+		} else {
+			for k := range res {
+				if !out[b.Index][k] {
+					delete(res, k)
+				}
+			}
+		}
+	}
+	return res
 }
